@@ -115,7 +115,12 @@ fn run_case(ctx: &WorkerCtx, rep: &mut WorkerReport, case_seed: u64, blocks: u64
         Call(Op, Resp),
         ObsBoundary,
         ObsMid,
+        ObsPool,
     }
+    // a signer nobody else uses: its future-nonce transaction is never drained and expires exactly ten
+    // blocks after it was parked, so that rejected calls can be injected at the expiry height
+    let orphan = hist::Signer::new_seeded(case_seed ^ 0x0c05_0bfa);
+    let mut orphan_stamp: Option<u64> = None;
     let mut steps: Vec<Step> = Vec::new();
     let mut consumed = 0usize; // how much of d.log has been copied into steps
     macro_rules! sync {
@@ -128,10 +133,16 @@ fn run_case(ctx: &WorkerCtx, rep: &mut WorkerReport, case_seed: u64, blocks: u64
         };
     }
     macro_rules! inject {
-        () => {{
+        ($at_expiry:expr) => {{
             let mut inj = injections(&mut rng, &mut w, &mut d);
             rng.shuffle(&mut inj);
-            let take = rng.range(1, 4) as usize;
+            let mut take = rng.range(1, 4) as usize;
+            if $at_expiry {
+                // the refused call that matters at an expiry height is the one that closes the block
+                inj.sort_by_key(|i| !matches!(i.op, Op::Finalise { .. }));
+                take = take.max(2);
+                rep.set_add("coverage", "rejected-finalise-at-pool-expiry-height".to_string());
+            }
             for i in inj.into_iter().take(take) {
                 let pool_nonempty = match d.inst.call("txpool_content", json!([])) {
                     Resp::Ok(v) => v["pending"].as_object().map(|o| !o.is_empty()).unwrap_or(false),
@@ -161,6 +172,7 @@ fn run_case(ctx: &WorkerCtx, rep: &mut WorkerReport, case_seed: u64, blocks: u64
                 }
             }
             sync!();
+            steps.push(Step::ObsPool);
         }};
     }
     for _ in 0..blocks {
@@ -170,8 +182,20 @@ fn run_case(ctx: &WorkerCtx, rep: &mut WorkerReport, case_seed: u64, blocks: u64
             steps.push(Step::ObsBoundary);
             continue;
         }
-        if rng.chance(1, 2) {
-            inject!();
+        if orphan_stamp.is_none() && d.ntx == 0 && d.height >= w.base as i64 && rng.chance(2, 3) {
+            let blk = w.block_ctx(&d);
+            let raw = orphan.sign(Some(w.chain_id), rng.range(1, 5), None, &asm::tool_init());
+            let len = (raw.len() / 2) as u64 + 100_000;
+            let stamp = d.next_height();
+            let r = d.exec(Op::Transact { raw: format!("0x{}", raw), enc: Enc::Hex, ctx: Ctx { ts: blk.0, hash: blk.1.clone(), idx: 0 }, iid: w.iid(), len, txid: w.txid() });
+            sync!();
+            if r.is_ok() && hist::receipts_in(&r).is_empty() {
+                orphan_stamp = Some(stamp);
+            }
+        }
+        let at_expiry = orphan_stamp.map(|b| d.next_height() == b + 10).unwrap_or(false);
+        if at_expiry || rng.chance(1, 2) {
+            inject!(at_expiry && d.ntx == 0);
             // what a rejected call wrote to disk only shows once the uncommitted part is dropped
             if d.ntx == 0 && d.committed >= w.base as i64 && rng.chance(1, 4) {
                 d.exec(if rng.chance(1, 2) { Op::Clear } else { Op::Reopen });
@@ -184,8 +208,8 @@ fn run_case(ctx: &WorkerCtx, rep: &mut WorkerReport, case_seed: u64, blocks: u64
         for _ in 0..n {
             w.gen_tx(&mut d, &blk);
             sync!();
-            if rng.chance(1, 2) {
-                inject!();
+            if (at_expiry && rng.chance(1, 2)) || rng.chance(1, 2) {
+                inject!(at_expiry);
                 if rng.chance(1, 3) {
                     steps.push(Step::ObsMid);
                 }
@@ -229,6 +253,19 @@ fn run_case(ctx: &WorkerCtx, rep: &mut WorkerReport, case_seed: u64, blocks: u64
                     violation(rep, "C05", ctx.seed, &format!("later-call-differs:{}", op.kind()),
                         "with the rejected calls removed from the history, a later call returns something else: a rejected call changed state".into(),
                         json!({"case_seed": case_seed, "network": net, "op": op, "with_rejected_calls": r.short(), "without": rc.short(), "rejected_before": steps[..si].iter().filter_map(|s| match s { Step::Call(o, r) if r.is_err() => Some(json!({"op": o, "err": r.short()})), _ => None }).collect::<Vec<_>>().into_iter().rev().take(6).collect::<Vec<_>>()}));
+                    break;
+                }
+            }
+            Step::ObsPool => {
+                // the pending pool right after a rejected call (nothing else in between)
+                let pd = dd.inst.call("txpool_content", json!([]));
+                let pc = cc.inst.call("txpool_content", json!([]));
+                rep.evaluations += 1;
+                if !same(&pd, &pc) {
+                    violation(rep, "C05", ctx.seed, "pool-differs-after-rejected-call",
+                        "right after a rejected call the pending pool differs from the one of the instance that never saw the call".into(),
+                        json!({"case_seed": case_seed, "network": net, "with_rejected_calls": pd.short(), "without": pc.short(),
+                               "recent_rejected": steps[..si].iter().filter_map(|s| match s { Step::Call(o, r) if r.is_err() => Some(json!({"op": o, "err": r.short()})), _ => None }).collect::<Vec<_>>().into_iter().rev().take(4).collect::<Vec<_>>()}));
                     break;
                 }
             }
@@ -283,7 +320,7 @@ pub fn worker(ctx: &WorkerCtx) -> WorkerReport {
     crate::setup_env(net, traces);
     let mut rep = WorkerReport::default();
     let mut rng = ctx.rng();
-    let (cases, blocks) = if ctx.thorough() { (8, 14) } else { (1, 10) };
+    let (cases, blocks) = if ctx.thorough() { (8, 16) } else { (1, if ctx.shard % 2 == 0 { 15 } else { 10 }) };
     for _ in 0..cases {
         let cs = rng.next();
         run_case(ctx, &mut rep, cs, blocks);
